@@ -297,15 +297,15 @@ def subchecks(tier):
     S = []
     for kind in HARD_KINDS:
         for form in ("scalar", "list_full", "list_partial", "dict"):
-            S.append(SubCheck(f"{kind}/{form}", _single_case(kind, form), o_feasible, quick=50, thorough=500,
+            S.append(SubCheck(f"{kind}/{form}", _single_case(kind, form), o_feasible, quick=100, thorough=800,
                               discard_exc=LIN))
     # regression class of N6 (fixed: simplex_prox used to drop the column axis of an (n, 1) matrix)
     for kind in RADIUS_KINDS:
         S.append(SubCheck(f"{kind}/rank1", _single_case(kind, "dict", ranks=(1, 1)), o_feasible, quick=40, thorough=300,
                           discard_exc=LIN))
-    S.append(SubCheck("two_kinds/dict+dict", _double_case(("dict", "dict")), o_feasible, quick=150, thorough=1500, discard_exc=LIN))
-    S.append(SubCheck("two_kinds/list+dict", _double_case(("list", "dict")), o_feasible, quick=150, thorough=1500, discard_exc=LIN))
-    S.append(SubCheck("two_kinds/list+list", _double_case(("list", "list")), o_feasible, quick=100, thorough=1000, discard_exc=LIN))
+    S.append(SubCheck("two_kinds/dict+dict", _double_case(("dict", "dict")), o_feasible, quick=300, thorough=2000, discard_exc=LIN))
+    S.append(SubCheck("two_kinds/list+dict", _double_case(("list", "dict")), o_feasible, quick=300, thorough=2000, discard_exc=LIN))
+    S.append(SubCheck("two_kinds/list+list", _double_case(("list", "list")), o_feasible, quick=200, thorough=1500, discard_exc=LIN))
     for f1, f2 in (("scalar", "scalar"), ("scalar", "list"), ("scalar", "dict"), ("list", "list"), ("list", "dict"), ("dict", "dict")):
-        S.append(SubCheck(f"reject/{f1}+{f2}", _reject_case((f1, f2)), o_reject, quick=60, thorough=400, discard_exc=LIN))
+        S.append(SubCheck(f"reject/{f1}+{f2}", _reject_case((f1, f2)), o_reject, quick=100, thorough=600, discard_exc=LIN))
     return S
